@@ -200,6 +200,11 @@ pub struct StreamState {
     pub dropped: bool,
     pub created: bool,
     pub waker: Option<Waker>,
+    /// Items with index >= `gate_from` are only produced once `gate` holds (an item that is
+    /// triggered by another client's call having been served, as with a notified state).
+    pub gate_from: usize,
+    pub gate: Option<Gate>,
+    pub produced: usize,
 }
 
 #[derive(Clone, Debug, PartialEq)]
@@ -294,6 +299,9 @@ pub struct W {
     /// What the service's reply streams report as `size_hint`: 0 = the default `(0, None)`,
     /// 1 = the exact number of items still to come, 2 = "at least one" while items remain.
     pub stream_size_hint: u8,
+    /// (cid, seq, first gated item, gate): the reply stream the service creates for that call
+    /// produces its later items only once the gate holds.
+    pub stream_gates: Vec<(u32, u32, usize, Gate)>,
 }
 
 pub const STEP_CAP_PANIC: &str = "ZSIM_STEP_CAP";
@@ -348,6 +356,7 @@ impl W {
             live_pipes: Vec::new(),
             live_streams: Vec::new(),
             stream_size_hint: 0,
+            stream_gates: Vec::new(),
         }))
     }
 
@@ -485,7 +494,9 @@ impl W {
                 continue;
             }
             if !s.script.is_empty() {
-                out.push(EnvAct::Item(i));
+                if s.produced < s.gate_from || self.gate_ok(&s.gate) {
+                    out.push(EnvAct::Item(i));
+                }
             } else if s.ends {
                 out.push(EnvAct::End(i));
             }
@@ -556,6 +567,7 @@ impl W {
             EnvAct::Item(s) => {
                 let it = self.streams[s].script.pop_front().unwrap();
                 self.streams[s].available.push_back(it);
+                self.streams[s].produced += 1;
                 self.ev("env.item", s as u64, it.0);
                 if let Some(w) = self.streams[s].waker.take() {
                     w.wake();
